@@ -195,6 +195,12 @@ func (C02) Run(tp *tape.Tape) core.Result {
 				if step(v) {
 					goto done
 				}
+				if tp.Draw(3) == 0 { // a generator hands out function values that were made elsewhere
+					if step(fmt.Sprintf("for qh <- elems([mkinc(1), mkinc(%d), mkinc(100)]) {\nwrite(toa(qh(5)) + \";\")\n}", 10+tp.Draw(9))) ||
+						step("qfs = (n) -> {\nr = []\nfor h <- elems([mkinc(n), mkinc(n * 2)]) {\nr = r + [h(1)]\n}\nr\n}") || step(fmt.Sprintf("qfs(%d)", 1+tp.Draw(9))) {
+						goto done
+					}
+				}
 				if tp.Bool() { // a closure generator driven from the top level; the body calls another closure after each value
 					if step(fmt.Sprintf("qcg = cgen(%d)", 1+tp.Draw(9))) || step(fmt.Sprintf("qin = mkinc(%d)", 100+tp.Draw(9))) ||
 						step("for qa <- qcg() {\nwrite(toa(qa) + \",\" + toa(qin(qa)) + \";\")\n}") {
